@@ -133,6 +133,15 @@ var c10Named = []struct {
 	{"SELECT id, CONCAT() AS x, ARRAY() AS y, SUM() AS z FROM t", false},
 	{"SELECT id, `n[(99999999999999999999:1)]` AS x FROM t", false},
 	{"SELECT id, `n[-99999999999]` AS x, `n[1e3]` AS y FROM t", false},
+	{"SELECT id, SUBSTR(s, 1, 1000000000000000000) AS x FROM t", false},
+	{"SELECT id, SUBSTR(s, 1000000000000000000, 2) AS x, SUBSTR(long, 2, 1000000000) AS y FROM t", false},
+	{"SELECT id, ELEMENTAT(n, 1000000000000000000) AS x FROM t", false},
+	{"SELECT id FROM t LIMIT 1000000000000000000", false},
+	{"SELECT id FROM t LIMIT 1 OFFSET 1000000000000000000", false},
+	{"SELECT id, `n[(0:1000000000000000000)]` AS x, `n[1000000000000000000]` AS y FROM t", false},
+	{"SELECT id FROM t WHERE long LIKE '%a%a%a%a%a%a%a%a%a%a%a%a%a%a%a%a%a%a%a%a%a%a%a%a%ab'", false},
+	{"SELECT id FROM t WHERE long NOT LIKE '%a%a%a%a%a%a%a%a%a%a%a%a%a%a%a%a%a%a%a%a%a%a%a%a%ab' OR s LIKE '%%%%%%%%%%%%%%%%%%%%x'", false},
+	{"SELECT id, CONCAT(long, long, long, long) AS c FROM t WHERE long LIKE '%a_a_a_a_a_a_a_a_a_a_a_a_b'", false},
 	{"SELECT DISTINCT (SELECT v FROM n) AS s, * FROM t", false},
 	{"SELECT DISTINCT *, (SELECT ip FROM `<-meta`) AS m FROM t", false},
 	{"SELECT DISTINCT id, (SELECT v, (SELECT ip FROM `<-<-meta`) AS ip FROM n) AS s, * FROM t", false},
@@ -504,7 +513,7 @@ func corpusC10() []*Bundle {
 		"t": []any{
 			map[string]any{"id": 1.0, "a": 10.0, "s": "x", "f": true, "n": []any{map[string]any{"v": 1.0, "w": "p"}, map[string]any{"v": 3.0, "w": "q"}}, "o": map[string]any{"p": 1.0, "q": "k"}},
 			map[string]any{"id": 2.0, "a": 20.0, "s": "xy", "f": false, "n": []any{}, "o": map[string]any{"p": 2.0, "q": "m"}},
-			map[string]any{"id": 3.0, "a": 10.0, "s": "z", "f": true, "n": []any{map[string]any{"v": 0.0, "w": "p"}}, "o": map[string]any{"p": 3.0, "q": "k"}},
+			map[string]any{"id": 3.0, "a": 10.0, "s": "z", "f": true, "n": []any{map[string]any{"v": 0.0, "w": "p"}}, "o": map[string]any{"p": 3.0, "q": "k"}, "long": strings.Repeat("a", 60)},
 		},
 		"u":    []any{map[string]any{"id": 1.0, "b": "k", "g": true}, map[string]any{"id": 3.0, "b": "m", "g": false}},
 		"meta": map[string]any{"ip": "10.0.0.1"},
